@@ -140,3 +140,61 @@ fn blake2s_mac_reset_keeps_key() {
     assert!(r1 == r2, "same MAC before and after Mac::reset");
     kani::cover!(true);
 }
+
+// Blake2b MAC abandoned in the middle of a message, with an empty or a non-empty key: after Mac::reset it gives the MAC of a fresh
+// new_keyed(outlen, key) object
+// @harness props=C09 kind=bounded bound=keylen<=2,abandoned=3,msglen=5,outlen=32 tier=quick timeout=600 pairs=reset
+#[kani::proof]
+#[kani::stub(EngineB::compress, rec_b)]
+#[kani::unwind(131)]
+fn blake2b_mac_reset_mid_message() {
+    let key: [u8; 2] = kani::any();
+    let kl: usize = kani::any();
+    kani::assume(kl <= 2);
+    let junk: [u8; 3] = kani::any();
+    let msg: [u8; 5] = kani::any();
+    let mut f = Blake2b::new_keyed(32, &key[..kl]);
+    Mac::input(&mut f, &msg);
+    let mut r1 = [0u8; 32];
+    f.raw_result(&mut r1);
+    let t1 = take_trace();
+    let mut m = Blake2b::new_keyed(32, &key[..kl]);
+    Mac::input(&mut m, &junk);
+    Mac::reset(&mut m);
+    Mac::input(&mut m, &msg);
+    let mut r2 = [0u8; 32];
+    m.raw_result(&mut r2);
+    let t2 = take_trace();
+    assert!(same_trace(&t1, &t2), "after a mid-message Mac::reset the object compresses what a fresh one does");
+    assert!(r1 == r2, "same MAC as a fresh object");
+    kani::cover!(true);
+}
+
+// Blake2s MAC abandoned in the middle of a message, with an empty or a non-empty key: after Mac::reset it gives the MAC of a fresh
+// new_keyed(outlen, key) object
+// @harness props=C09 kind=bounded bound=keylen<=2,abandoned=3,msglen=5,outlen=32 tier=quick timeout=600 pairs=reset
+#[kani::proof]
+#[kani::stub(EngineS::compress, rec_s)]
+#[kani::unwind(131)]
+fn blake2s_mac_reset_mid_message() {
+    let key: [u8; 2] = kani::any();
+    let kl: usize = kani::any();
+    kani::assume(kl <= 2);
+    let junk: [u8; 3] = kani::any();
+    let msg: [u8; 5] = kani::any();
+    let mut f = Blake2s::new_keyed(32, &key[..kl]);
+    Mac::input(&mut f, &msg);
+    let mut r1 = [0u8; 32];
+    f.raw_result(&mut r1);
+    let t1 = take_trace();
+    let mut m = Blake2s::new_keyed(32, &key[..kl]);
+    Mac::input(&mut m, &junk);
+    Mac::reset(&mut m);
+    Mac::input(&mut m, &msg);
+    let mut r2 = [0u8; 32];
+    m.raw_result(&mut r2);
+    let t2 = take_trace();
+    assert!(same_trace(&t1, &t2), "after a mid-message Mac::reset the object compresses what a fresh one does");
+    assert!(r1 == r2, "same MAC as a fresh object");
+    kani::cover!(true);
+}
